@@ -85,11 +85,11 @@ def families(ctx):
         ("D", dict(family="D", maxtx=2)),
         # the bound of the property text (<=3 txs x <=3 outputs x <=2 spends), reduced alphabet, one environment
         ("A", dict(family="Q", pool="S", maxtx=3, maxout=3, maxsp=2, **red)),
-        ("A4", dict(family="P", pool="I", maxtx=3, maxout=2, maxsp=2, **red)),
         ("B", dict(family="Q", pool="O", owners=full_o + ("m",), spends=full_s + ("m",), action=True, maxtx=2, maxout=2)),
         ("Bs", dict(family="P", pool="S", owners=full_o + ("m",), spends=full_s + ("m",), maxtx=2, maxout=2, maxsp=1)),
         ("X", dict(family="X", maxtx=2)),
     ]
+    # (Orchard / Ironwood blocks cost ~5 ms each to scan: their families are kept smaller than Sapling's)
     emit = [
         ("D", dict(family="D", maxtx=2)),
         ("S", dict(family="P", pool="S", owners=full_o, spends=("t1", "t2", "u"), maxtx=2, maxout=2, maxsp=1)),
@@ -98,8 +98,8 @@ def families(ctx):
         ("X", dict(family="X", maxtx=2)),
     ]
     for p in ("O", "I"):
-        emit.append((p, dict(family="P", pool=p, owners=full_o, spends=("t1", "t2", "u"), action=True, maxtx=2, maxout=2)))
-        emit.append((p + "3", dict(family="Q", pool=p, owners=("a1i", "f"), spends=("t1", "u"), action=True, maxtx=3, maxout=2)))
+        emit.append((p, dict(family="P", pool=p, owners=full_o, spends=("t1", "u"), action=True, maxtx=2, maxout=2)))
+        emit.append((p + "3", dict(family="Q", pool=p, owners=("a1i", "f"), spends=("t1", "u"), action=True, maxtx=3, maxout=1)))
         emit.append((p + "m", dict(family="P", pool=p, owners=full_o + ("m",), spends=full_s + ("m",), action=True, maxtx=1, maxout=2)))
     return mc, emit
 
@@ -690,7 +690,7 @@ def run(ctx):
         if len(batch) >= 60000 or name == emit[-1][0]:
             replay_blocks(ctx, bindir, tally, "+".join(names), batch)
             batch, names = [], []
-    rnd = [rand_block_case(rng) for _ in range(1500 if ctx.quick() else 20000)]
+    rnd = [rand_block_case(rng) for _ in range(1500 if ctx.quick() else 8000)]
     rnd += header_block_cases(rng, 4 if ctx.quick() else 40)
     tlc_eval(ctx, d, rnd, "random")
     for c in rnd:
